@@ -15,6 +15,8 @@ THEOREMS = [
     "Text.planToStr_isSome", "Text.ordering_roundtrip", "Text.planFromStr_ok", "Text.ordFromStr_ok",
     "Csv.csv_roundtrip", "Csv.csv_to_from", "Csv.csv_trim_pad", "Csv.csv_reader_layout",
     "Csv.csv_roundtrip_statistics", "Csv.csv_stat_reader_layout",
+    "Text.packing_text_roundtrip", "Text.nameOkB_no_semi",
+    "Csv.tinyCodec_roundTrips", "Csv.tinyEs_roundTrips", "Csv.tinySs_roundTrips", "Csv.scopeUse_self",
 ]
 
 ERRS = (ValueError, IndexError, TypeError, KeyError, OverflowError)
@@ -151,7 +153,7 @@ def shipped_lines(ck: Check):
 
 def malformed_compact(ck: Check):
     rng = ck.rng
-    base = ["x;2;500;50;3,5;2,5,2", "ab1;1;7;7;7,7", "q;3;10;20;1,1;20,1,100000000;5,5,3",
+    base = ["x;2;500;50;3,5;2,5,2", "ab1;1;7;7;7,7", "q;3;10;20;2,2;1,1,100000000;5,5,3",
             "big;2;1000000000000;1;1000000000000,1;1,1,99"]
     out = []
     for b in base:
@@ -1089,6 +1091,9 @@ def streams(ck: Check) -> None:
                     h3 = [uncc(t) for t in d["gen2"].split("!")[0].split("|")]
                     npk = len(h3) - len([t for t in h3 if t in ctx])
                 mout = " ".join(f"{k}={canon_gen2(v, npk) if k == 'gen2' else v}" for k, v in d.items())
+        if iout == "TIMEOUT":
+            ck.count("impl_timeout_not_compared")   # a valid but practically unconstructible instance (see notes)
+            continue
         ck.compare(f"{kind}:{stream}", short, mout, iout)
         if kind in ("parse", "planparse", "ordparse") and mout != iout:
             # malformed stream: the property says nothing, but a reader that accepts what the other rejects is reported
